@@ -307,20 +307,20 @@ def jobs(tier, seed):
         c = {'pipe': 'fanin-sched', 'kind': kind, 'n1': 1, 'n': big if kind in ('SP', 'RR', 'WRR', 'VC') else 2}
         if kind == 'WFQ':
             c['float_inexact'] = True
-        if kind == 'DRR' and tier == 'quick':
-            c['smax'] = 1600
+        if kind == 'DRR':
+            c['smax'] = 1600 if tier == 'quick' else 3200
         add(c, 50)
     for kind in ('SP', 'WFQ', 'VC', 'DRR'):
         c = {'pipe': 'fanin-sched', 'kind': kind, 'n1': 1, 'classmap': True, 'sorts': 'int'}
         if kind == 'DRR':
-            c['smax'] = 1600 if tier == 'quick' else 3200
+            c['smax'] = 1600
         add(c, 50)
     add({'pipe': 'fanout-demux', 'n': big}, 40)
     for server in ('simple', 'SP', 'WFQ', 'DRR', 'VirtualClock'):
         c = {'pipe': 'switch', 'server': server}
         if server == 'WFQ':
             c['float_inexact'] = True
-        if server == 'DRR' and tier == 'quick':
+        if server == 'DRR':
             c['smax'] = 1600
         add(c, 40)
     add({'pipe': 'tb-sp', 'peak': None}, 40)
